@@ -596,6 +596,62 @@ def run(ctx):
         if nbad == 0:
             ctx.ok(R_subst, {"fn": path})
 
+    # v4 digests, writer side: the digest stored for a table is the one computed over that table's bytes as written
+    R_v4w = ctx.rule("C10.v4-digest-slots-filled-from-their-table", "each md5_<table> field of the MpqHeaderV4Data literal the builder writes comes from the writer function of that same table, which digests the very buffer it writes", floor=5)
+    for f in mpq.fn_list:
+        if not f.hir or f.kind == "Closure" or "::builder::" not in f.path:
+            continue
+        for st_ in hirq.walk(f.hir["body"]):
+            if st_.get("k") != "struct" or not str((st_.get("res") or {}).get("def") or "").endswith("MpqHeaderV4Data"):
+                continue
+            ctx.saw_fn(f)
+            for fd0 in st_.get("fields") or []:
+                fd = {"name": fd0[0], "e": fd0[1], "ln": (fd0[1] or {}).get("ln")}
+                nm = fd.get("name") or ""
+                m_ = re.match(r"md5_(\w+)_table$", nm)
+                if not m_:
+                    continue
+                tab = m_.group(1)
+                srcs = set()
+                for v in [fd.get("e") or fd.get("v")] + [x for x in hirq.value_leaves(f.hir["body"], fd.get("e") or fd.get("v")) if x is not None]:
+                    v = hirq.strip(v)
+                    if v.get("k") == "tupidx":
+                        v = hirq.strip(v["e"])
+                    for c_ in hirq.walk(v):
+                        if c_.get("k") == "mcall" and re.match(r"write_\w+_table$", c_["m"]):
+                            srcs.add(c_["m"])
+                        if c_.get("k") == "call" and re.search(r"::write_\w+_table$", c_.get("fn") or ""):
+                            srcs.add(c_["fn"].split("::")[-1])
+                want = "write_%s_table" % tab
+                if srcs == {want}:
+                    ctx.ok(R_v4w, {"slot": nm, "from": want})
+                elif srcs:
+                    ctx.bad(R_v4w, "v4-writer|%s" % nm, "%s:%d" % (f.file, fd.get("ln") or st_.get("ln") or 0), "`%s` is filled from %s" % (nm, sorted(srcs)),
+                            "the header carries another table's digest in this slot: the archive's own verification reports a table corrupt that is intact (and would accept a corruption of the table whose digest is missing)")
+                else:
+                    ctx.bad(R_v4w, "v4-writer|%s|source" % nm, "%s:%d" % (f.file, fd.get("ln") or st_.get("ln") or 0), "`%s` does not come from a table writer (`%s`)" % (nm, hirq.render(fd.get("e") or fd.get("v"))[:40]), "a digest that is not computed from the written table cannot detect its corruption")
+    for f in mpq.fn_list:
+        if not f.hir or f.kind == "Closure" or not re.search(r"::builder::ArchiveBuilder::write_\w+_table$", f.path):
+            continue
+        md = [c_ for c_ in hirq.walk(f.hir["body"]) if c_.get("k") == "mcall" and c_["m"] == "calculate_md5" and c_.get("args")]
+        wr = [c_ for c_ in hirq.walk(f.hir["body"]) if c_.get("k") == "mcall" and c_["m"] == "write_all" and c_.get("args")]
+        if not md:
+            continue
+        ctx.saw_fn(f)
+        order = {id(n): i for i, n in enumerate(hirq.walk(f.hir["body"]))}
+        base = lambda e: re.sub(r"^[&(*\s]+|[)\s]+$", "", hirq.render(e)).split("[")[0].split(".")[0]
+        hashed = {base(c_["args"][0]) for c_ in md}
+        written = {base(c_["args"][0]) for c_ in wr}
+        # nothing changes the buffer between the digest and the write
+        touched = [n for n in hirq.walk(f.hir["body"]) if min(order[id(c_)] for c_ in md) < order[id(n)] < max([order[id(c_)] for c_ in wr] or [0])
+                   and ((n.get("k") == "mcall" and n["m"] in ("encrypt_data", "extend_from_slice", "push", "truncate", "resize", "insert") and base(n["args"][0] if n["m"] == "encrypt_data" and n.get("args") else n["recv"]) in hashed)
+                        or (n.get("k") == "assign" and base(n["l"]) in hashed))]
+        if hashed & written and not touched:
+            ctx.ok(R_v4w, {"writer": f.path.split("::")[-1], "digest_of": sorted(hashed), "writes": sorted(written & hashed)})
+        else:
+            ctx.bad(R_v4w, "%s|digest-of-other-bytes" % f.path.split("::")[-1], f.where, "digest taken of %s, bytes written from %s%s" % (sorted(hashed), sorted(written), "; the buffer is modified in between" if touched else ""),
+                    "the stored digest does not describe the bytes on disk: verification of an intact archive fails, or a corruption goes unnoticed")
+
     # v4 digests
     v4 = next((a for a in mpq.items["adts"] if a["path"].endswith("header::MpqHeaderV4Data")), None)
     vf = mpq.fns.get("wow_mpq::archive::Archive::validate_v4_md5_checksums")
